@@ -51,9 +51,11 @@ def strictKinds : List Kind := Gen.opsOf "parse_dot_ops"
 /-- a token's own range: `start ≤ end`, strictly for the member-access operators -/
 def TokOK (t : Tok) : Prop := t.rng.s.le t.rng.e = true ∧ (strictKinds.contains t.kind = true → Pos.lt t.rng.s t.rng.e = true)
 
-/-- token kinds whose range may END too far to the right: the lexer ends a token at `start + value.len()`, the
-    length in BYTES, so a string literal or a comment holding multi-byte characters reaches over the tokens
-    that follow it on the line (`'漢漢'.x`: the literal is `0:0-0:6`, the `.` starts at `0:4`) -/
+/-- token kinds whose range may END too far to the right: the pinned lexer ended a token at `start + value.len()`,
+    the length in BYTES, so a string literal or a comment holding multi-byte characters reached over the tokens
+    that follow it on the line (`'漢漢'.x`: the literal was `0:0-0:6`, the `.` starts at `0:4`).  The repaired lexer
+    counts characters and needs no exception (`Props/C08Text.lean`, `lex_tight`); the exception only weakens the
+    hypothesis of the range theorems -/
 def looseKinds : List Kind := [Kind.StringLiteral, Kind.Comment]
 
 /-- where a token ends relative to the position `hi` of what follows: it STARTS no later, and unless its kind is
